@@ -23,6 +23,46 @@ package scen
 // channel was closed. Soundness clauses (what may be yielded) use every reply
 // delivered up to the yield; the completeness clause (count 0) is evaluated
 // only for searches that were not cancelled and whose channel closed.
+//
+// Drawn variants added after seeded changes were missed:
+//
+//   * query-event subscription (all three clients). The caller's context may be
+//     registered for routing query events (routing.RegisterForQueryEvents), the
+//     way command-line "findprovs" callers do. The property quantifies over
+//     every caller context, and every rule applies unchanged; a harness
+//     goroutine drains the event channel at all times. Events are neither
+//     traced nor used for decisions: the dual client forwards them through a
+//     select that also serves the result channels, so which of them get
+//     through before the count is reached is the Go runtime's choice.
+//
+//   * silent responders (fault). A responder drawn as silent takes a request
+//     and does not answer it: its parked request is not offered to the
+//     scheduler while the request's context is live (and observes the
+//     cancellation once the context is done). The message sender is below the
+//     client and has a time-out of its own in any real deployment; here that
+//     time-out is longer than everything else in the run: only when nothing
+//     else can be scheduled and `patience` seconds of virtual time passed
+//     (30 s, plus the client's own per-operation time-out where it has one)
+//     do the requests that are waiting on silent responders fail with a
+//     sender time-out, and the search goes on. Up to that point the search is
+//     simply not over (the standard client, for one, waits for requests that
+//     were in flight when it reached the count or its end condition), so the
+//     completion clauses are judged as usual once the channel is closed.
+//     One liveness rule follows from "the result channel is always closed,
+//     after completion":
+//       - not-closed-after-timeout (accelerated client only): that client is
+//         built with a per-operation time-out (WithTimeoutPerOperation, a value
+//         the scenario draws) after which the operation is over by the
+//         client's own contract, whatever the responders do. The channel is
+//         therefore closed once that much virtual time plus 30 s passed with
+//         nothing but requests to silent responders outstanding - whether the
+//         count was reached before or not. (Reaching the count earlier than
+//         that is covered too: a search that reached its count and is still
+//         open after the time-out fails the same rule.)
+//     The standard and the dual client have no time-out above the message
+//     sender; for them a silent responder only delays the close until the
+//     sender gives up, which is what the property allows ("closed after
+//     completion", no bound on when).
 
 import (
 	"context"
@@ -37,6 +77,7 @@ import (
 	pb "github.com/libp2p/go-libp2p-kad-dht/pb"
 	"github.com/libp2p/go-libp2p-kad-dht/records"
 	"github.com/libp2p/go-libp2p/core/peer"
+	"github.com/libp2p/go-libp2p/core/routing"
 	ma "github.com/multiformats/go-multiaddr"
 	mh "github.com/multiformats/go-multihash"
 
@@ -51,6 +92,8 @@ var c08Faults = []string{
 	"probe_count_local_only", "probe_count_mid_search", "probe_count_unreached", "probe_repeat_with_addrs",
 	"probe_cancel_mid_search", "probe_closed_after_cancel", "probe_count0_complete", "probe_no_peers",
 	"probe_local_and_remote", "probe_late_reply_after_count", "probe_dup_named_suppressed", "probe_cancel_before_start",
+	"fault_silent_responder", "probe_silent_cut_by_count", "probe_silent_abandoned_by_client", "fault_silent_sender_timeout", "probe_silent_held_search",
+	"probe_query_events_subscribed", "probe_count_with_requests_in_flight",
 }
 
 var c08LazyFaults = []string{"probe_cancel_consumer_not_reading", "probe_lazy_consumer"}
@@ -63,9 +106,9 @@ func init() {
 		s.Finish()
 	},
 		Real: []string{"IpfsDHT.FindProvidersAsync / findProvidersAsyncRoutine", "query.go state machine incl. follow-up phase and stop function", "records.ProviderManager (local providers)", "ProtocolMessenger.GetProviders", "kbucket routing table", "pstoremem peerstore"},
-		Stub: []string{"host.Host/network (simhost)", "pb.MessageSender (level A, simnet.Sender)", "remote peers (scripted provider and closer-peer lists)", "provider datastore (simds, no faults)", "provider-order shuffles (deterministic permutation through injected accessor)"},
+		Stub: []string{"host.Host/network (simhost)", "pb.MessageSender (level A, simnet.Sender)", "remote peers (scripted provider and closer-peer lists; silent ones, on which the sender gives up only after everything else has drained)", "provider datastore (simds, no faults)", "provider-order shuffles (deterministic permutation through injected accessor)"},
 		Faults: append(append(append([]string{}, c08Faults...), c08LazyFaults...),
-			"probe_term_stopped", "probe_term_completed", "probe_term_starvation", "probe_followup_request"),
+			"probe_term_stopped", "probe_term_completed", "probe_term_starvation", "probe_followup_request", "probe_silent_held_after_count"),
 	})
 }
 
@@ -81,6 +124,7 @@ type c08Named struct {
 type c08Beh struct {
 	DialFail bool
 	ReqErr   bool
+	Silent   bool // takes a request and never answers it (the request only ever observes its cancellation)
 	Knows    []*simnet.Peer
 	Provs    []c08Named // provider entries of its GET_PROVIDERS reply, in reply order
 	K        int        // closer-peer list length of the network it lives in
@@ -92,6 +136,8 @@ type c08Cfg struct {
 	Count      int
 	CancelAt   int
 	FaultLevel int
+	Silent     int  // 0: every responder answers; 1, 2: a few / many responders are silent
+	QEvents    bool // the caller's context is registered for routing query events
 }
 
 type c08Yield struct {
@@ -142,6 +188,10 @@ type c08World struct {
 	// blocked on their channels would make the merging select racy.
 	lazy       bool
 	tablePeers int
+	// ownTimeout: the client was built with a time-out of its own for the whole
+	// operation (accelerated client: WithTimeoutPerOperation, drawn by the
+	// scenario); 0: nothing above the message sender bounds a request.
+	ownTimeout time.Duration
 	evCh       <-chan *dht.LookupEvent
 	ctxWrap    func(context.Context) context.Context
 
@@ -153,8 +203,13 @@ type c08World struct {
 	closeStep   int
 	startStep   int
 	cancelStep  int
-	cancelBusy  bool // requests or dials were parked when the context was cancelled
-	cancelLazy  bool // the consumer was not reading when the context was cancelled
+	cancelBusy  bool                 // requests or dials were parked when the context was cancelled
+	cancelLazy  bool                 // the consumer was not reading when the context was cancelled
+	silentHeld  bool                 // the run idled out with live requests to silent responders outstanding
+	heldBy      string               // ... their names
+	expired     map[*simnet.RPC]bool // requests to silent responders whose sender time-out has fired
+	expiries    int                  // number of times the sender time-out fired
+	heldAtCount bool                 // the sender time-out fired for a request outstanding since before the count was reached
 	deliveries  []c08Delivery
 	termStep    int
 	termReason  string
@@ -211,6 +266,8 @@ func c08GenCfg(s *sim.Sim, client string) c08Cfg {
 		// 1 = the context is already cancelled when the search is started
 		c.CancelAt = s.Range("cancel-at", 1, []int{6, 14, 40}[s.Draw("cancel-class", 3)])
 	}
+	c.Silent = []int{0, 0, 1, 2}[s.Draw("silent-level", 4)]
+	c.QEvents = s.Chance("query-events", 1, 2)
 	return c
 }
 
@@ -321,6 +378,9 @@ func (w *c08World) c08GenGraph(responders []*simnet.Peer, k int, label string) {
 				b.ReqErr = true
 			}
 		}
+		if w.cfg.Silent > 0 && rng.Intn(100) < []int{0, 15, 45}[w.cfg.Silent] {
+			b.Silent, b.DialFail, b.ReqErr = true, false, false
+		}
 		w.beh[p.ID] = b
 	}
 }
@@ -399,8 +459,8 @@ func c08BuildStd(s *sim.Sim) *c08World {
 		_ = h.DHT.Close()
 		_ = h.Host.Close()
 	}
-	s.Summary["cfg"] = fmt.Sprintf("client=std N=%d K=%d alpha=%d beta=%d count=%d pool=%d local=%d table=%d faults=%d cancelAt=%d lazy=%v",
-		c.N, k, alpha, beta, c.Count, len(w.pool), len(w.local), w.tablePeers, c.FaultLevel, c.CancelAt, w.lazy)
+	s.Summary["cfg"] = fmt.Sprintf("client=std N=%d K=%d alpha=%d beta=%d count=%d pool=%d local=%d table=%d faults=%d silent=%d qevents=%v cancelAt=%d lazy=%v",
+		c.N, k, alpha, beta, c.Count, len(w.pool), len(w.local), w.tablePeers, c.FaultLevel, c.Silent, c.QEvents, c.CancelAt, w.lazy)
 	return w
 }
 
@@ -480,6 +540,17 @@ func (w *c08World) actions() []sim.Action {
 			}})
 		case "rpc":
 			r := p.Data.(*simnet.RPC)
+			if b := w.beh[r.To]; b != nil && b.Silent {
+				if !w.expired[r] {
+					continue // not answered
+				}
+				acts = append(acts, sim.Action{ID: "timeout>" + p.ID, Do: func() {
+					s.Count("fault_silent_sender_timeout")
+					s.Release(p, simnet.Reply{Err: errSenderTimeout})
+					w.deliveries = append(w.deliveries, c08Delivery{Step: s.Steps, From: r.To, Kind: "rpc-err", RPC: r})
+				}})
+				continue
+			}
 			acts = append(acts, sim.Action{ID: p.ID, Do: func() {
 				if b := w.beh[r.To]; b == nil || b.ReqErr {
 					s.Count("fault_rpc_error")
@@ -501,6 +572,22 @@ func (w *c08World) actions() []sim.Action {
 		}
 	}
 	return acts
+}
+
+var errSenderTimeout = fmt.Errorf("sim: no answer, the message sender gave up: %w", context.DeadlineExceeded)
+
+// silentWaiting returns the requests to silent responders that are parked
+// with a live context.
+func (w *c08World) silentWaiting() []*simnet.RPC {
+	var l []*simnet.RPC
+	for _, p := range w.s.ParkedKind("rpc") {
+		if r, ok := p.Data.(*simnet.RPC); ok && !p.Cancelled() {
+			if b := w.beh[r.To]; b != nil && b.Silent {
+				l = append(l, r)
+			}
+		}
+	}
+	return l
 }
 
 func (w *c08World) drainEvents() {
@@ -556,6 +643,17 @@ func (w *c08World) run() bool {
 	if w.ctxWrap != nil {
 		base = w.ctxWrap(base)
 	}
+	if c.QEvents {
+		// the caller subscribes to query events and reads them at all times
+		evCtx, evCancel := context.WithCancel(base)
+		defer evCancel()
+		regCtx, qev := routing.RegisterForQueryEvents(evCtx)
+		go func() {
+			for range qev {
+			}
+		}()
+		base = regCtx
+	}
 	ctx, cancel := context.WithCancel(base)
 	defer cancel()
 
@@ -588,21 +686,29 @@ func (w *c08World) run() bool {
 	w.drainEvents()
 	w.traceYields()
 
+	// Patience: the loop gives up when nothing can be scheduled for this many
+	// seconds of virtual time in a row. A client with a time-out of its own gets
+	// that time-out on top.
+	patience := 30 + int(w.ownTimeout/time.Second)
+	w.expired = map[*simnet.RPC]bool{}
+	doCancel := func() {
+		w.cancelStep = s.Steps
+		w.cancelBusy = len(s.ParkedKind("rpc"))+len(s.ParkedKind("dial")) > 0
+		w.cancelLazy = len(s.ParkedKind("consume")) > 0
+		s.Tracef("cancel")
+		s.Count("fault_cancel")
+		cancel()
+		s.Quiesce()
+		w.drainEvents()
+		w.traceYields()
+	}
 	idle := 0
 	for !w.op.Done {
 		if !s.Step() {
 			break
 		}
 		if c.CancelAt > 0 && s.Steps >= c.CancelAt && w.cancelStep == 0 {
-			w.cancelStep = s.Steps
-			w.cancelBusy = len(s.ParkedKind("rpc"))+len(s.ParkedKind("dial")) > 0
-			w.cancelLazy = len(s.ParkedKind("consume")) > 0
-			s.Tracef("cancel")
-			s.Count("fault_cancel")
-			cancel()
-			s.Quiesce()
-			w.drainEvents()
-			w.traceYields()
+			doCancel()
 			continue
 		}
 		if s.Chance("tick", 1, 8) {
@@ -615,10 +721,42 @@ func (w *c08World) run() bool {
 		acts := w.actions()
 		if len(acts) == 0 {
 			idle++
-			if idle > 30 {
-				break
+			if idle > patience {
+				waiting := w.silentWaiting()
+				if w.cancelStep != 0 || len(waiting) == 0 {
+					break
+				}
+				if w.ownTimeout > 0 {
+					w.silentHeld = true
+					var l []string
+					for _, r := range waiting {
+						l = append(l, w.u.Name(r.To))
+					}
+					sort.Strings(l)
+					w.heldBy = strings.Join(l, ",")
+					break // judged by rule not-closed-after-timeout
+				}
+				// Nothing above the message sender bounds these requests: now the
+				// sender gives up on them (scheduled like any other outcome).
+				reached := w.reachedStep()
+				for _, r := range waiting {
+					w.expired[r] = true
+					if reached != 0 && r.SentStep < reached {
+						w.heldAtCount = true
+					}
+				}
+				w.expiries++
+				s.Tracef("sender time-out for %d silent request(s)", len(waiting))
+				idle = 0
+				patience = 5 // later rounds: the first one showed that time alone changes nothing
+				continue
 			}
-			s.Sleep(time.Second)
+			d := time.Second
+			if w.ownTimeout == 0 && w.cancelStep == 0 && len(w.silentWaiting()) > 0 {
+				// no timer of the client can fire: take the rest of the wait in one jump
+				d, idle = time.Duration(patience-idle+1)*time.Second, patience
+			}
+			s.Sleep(d)
 			w.drainEvents()
 			w.traceYields()
 			continue
@@ -653,14 +791,24 @@ func (w *c08World) run() bool {
 // very step in which the count is reached.
 func (w *c08World) afterCount() {
 	s := w.s
+	reached := w.reachedStep()
 	for i := 0; i < 60; i++ {
 		s.Quiesce()
+		if w.lateRequest(reached) != nil {
+			return // reported by rule asked-after-count
+		}
 		var pick *sim.Parked
 		for _, p := range s.Parked() {
-			if p.Kind == "dial" || p.Kind == "rpc" {
-				pick = p
-				break
+			if p.Kind != "dial" && p.Kind != "rpc" {
+				continue
 			}
+			if r, ok := p.Data.(*simnet.RPC); ok && !p.Cancelled() {
+				if b := w.beh[r.To]; b != nil && b.Silent {
+					continue // stays unanswered (the run is over before the sender gives up)
+				}
+			}
+			pick = p
+			break
 		}
 		if pick == nil {
 			return
@@ -701,6 +849,29 @@ func (w *c08World) afterCount() {
 	s.Quiesce()
 }
 
+// lateRequest returns the first search request issued after the count was
+// reached (nil if there is none, or the count was not reached).
+func (w *c08World) lateRequest(reached int) *simnet.RPC {
+	if reached == 0 {
+		return nil
+	}
+	for _, snd := range w.snds {
+		for _, r := range snd.Snapshot() {
+			if !w.isSearchReq(r) {
+				continue
+			}
+			late := r.SentStep >= reached
+			if w.racyStop {
+				late = r.SentStep > reached && r.CtxLive
+			}
+			if late {
+				return r
+			}
+		}
+	}
+	return nil
+}
+
 // ---------------------------------------------------------------------------
 // oracle
 
@@ -728,6 +899,16 @@ func (w *c08World) check() {
 		switch {
 		case w.cancelStep != 0:
 			why = fmt.Sprintf("context cancelled at step %d", w.cancelStep)
+		case w.ownTimeout > 0 && w.silentHeld:
+			// rule not-closed-after-timeout: the client's own per-operation
+			// time-out has long passed.
+			what := "the count was not reached"
+			if r := w.reachedStep(); r != 0 {
+				what = fmt.Sprintf("count=%d was reached at step %d", c.Count, r)
+			}
+			s.Violate("not-closed-after-timeout", "%s client built with a per-operation time-out of %v (%s): the only requests still outstanding are those to %s, which took the request and do not answer, and %v of virtual time passed with nothing else in flight, yet the result channel is still open; %d item(s) yielded",
+				c.Client, w.ownTimeout, what, w.heldBy, w.ownTimeout+30*time.Second, len(w.yields))
+			return
 		case w.reachedStep() != 0:
 			why = fmt.Sprintf("count reached at step %d", w.reachedStep())
 		case w.tablePeers == 0:
@@ -805,25 +986,32 @@ func (w *c08World) check() {
 	// every other goroutine of the search is blocked in that step, so a request
 	// that reaches the sender in the same or a later step was issued afterwards.
 	reached := w.reachedStep()
-	nreq := 0
+	nreq, inFlightAtCount, silentAsked, silentCut, silentAbandoned, silentTimedOut := 0, false, false, false, false, false
 	for _, snd := range w.snds {
 		for _, r := range snd.Snapshot() {
 			if !w.isSearchReq(r) {
 				continue
 			}
 			nreq++
-			if reached == 0 {
-				continue
+			if b := w.beh[r.To]; b != nil && b.Silent && r.CtxLive {
+				silentAsked = true
+				if reached != 0 && r.SentStep < reached && r.Cancelled {
+					silentCut = true // abandoned by the client when the count was reached
+				}
+				if reached == 0 && w.cancelStep == 0 && r.Cancelled {
+					silentAbandoned = true
+					if w.ownTimeout > 0 && r.DoneAt-r.SentAt >= w.ownTimeout {
+						silentTimedOut = true
+					}
+				}
 			}
-			late := r.SentStep >= reached
-			if w.racyStop {
-				late = r.SentStep > reached && r.CtxLive
-			}
-			if late {
-				s.Violate("asked-after-count", "count=%d was reached at step %d, yet a GET_PROVIDERS request to %s was issued at step %d", c.Count, reached, u.Name(r.To), r.SentStep)
-				break
+			if reached != 0 && r.SentStep < reached && (!r.Done || r.DoneStep > reached) {
+				inFlightAtCount = true
 			}
 		}
+	}
+	if r := w.lateRequest(reached); r != nil {
+		s.Violate("asked-after-count", "count=%d was reached at step %d, yet a GET_PROVIDERS request to %s was issued at step %d", c.Count, reached, u.Name(r.To), r.SentStep)
 	}
 
 	// rule missing-provider: count 0, not cancelled, search ended: every local
@@ -883,6 +1071,32 @@ func (w *c08World) check() {
 		}
 	} else if c.Count > 0 && w.cancelStep == 0 {
 		s.Count("probe_count_unreached")
+	}
+	if silentAsked {
+		s.Count("fault_silent_responder")
+	}
+	if silentCut {
+		s.Count("probe_silent_cut_by_count")
+	}
+	if silentAbandoned {
+		s.Count("probe_silent_abandoned_by_client")
+	}
+	if silentTimedOut {
+		s.Count("probe_silent_cut_by_timeout")
+	}
+	if inFlightAtCount {
+		s.Count("probe_count_with_requests_in_flight")
+	}
+	if c.QEvents {
+		s.Count("probe_query_events_subscribed")
+	}
+	if w.expiries > 0 {
+		s.Count("probe_silent_held_search")
+	}
+	if w.heldAtCount {
+		// the count was reached and the search still waited for a request that
+		// had been in flight at that moment until the sender gave up
+		s.Count("probe_silent_held_after_count")
 	}
 	if w.cancelStep != 0 {
 		if w.cancelBusy {
